@@ -25,6 +25,7 @@ import (
 //	mut     — fixture Fixture with the 8-byte field at Off overwritten by Val
 //	fixture — fixture Fixture unchanged
 //	raw     — Raw bytes as they are (fuzz crashers, hand-made probes)
+//	enum    — a batch of enumeration cases by index (crash journal of TestEnum)
 type Case struct {
 	Target  string `json:"target"`
 	Form    string `json:"form"`
@@ -34,6 +35,7 @@ type Case struct {
 	Off     int    `json:"off,omitempty"`
 	Val     uint64 `json:"val,omitempty"`
 	Raw     []byte `json:"raw,omitempty"`
+	Enum    []int  `json:"enum,omitempty"`  // form "enum": indexes into the enumeration (batch journal of TestEnum)
 	Src     string `json:"src,omitempty"`   // source kind handed to the entry point (default guard)
 	Drain   string `json:"drain,omitempty"` // catar decoders: what the caller does with a payload reader (none/part/all)
 }
@@ -327,6 +329,9 @@ func trimStack(s string) string {
 }
 
 func run(c Case) (o hx.Outcome) {
+	if c.Form == "enum" {
+		return runEnumBatch(c)
+	}
 	in, k, err := c.input()
 	if err != nil {
 		panic("c19: cannot build the input: " + err.Error())
@@ -428,6 +433,26 @@ func run(c Case) (o hx.Outcome) {
 		if (base.Err == nil) != (r.Err == nil) || base.Calls != r.Calls {
 			o.Fail("C19:"+c.Target+":source-dependent"+tag, "%s on %d bytes (drain %s): source %s gives err=%v after %d results, the plain stream reader gives err=%v after %d results",
 				c.Target, len(in), op.drain(c.Target), op.src(), r.Err, r.Calls, base.Err, base.Calls)
+		}
+	}
+	return o
+}
+
+// runEnumBatch re-runs a batch of enumeration cases (replay of a batch journal entry).
+func runEnumBatch(c Case) (o hx.Outcome) {
+	cases, err := enumCases()
+	if err != nil {
+		panic("c19: " + err.Error())
+	}
+	o.Desc = map[string]any{"form": "enum", "cases": len(c.Enum)}
+	for _, i := range c.Enum {
+		if i < 0 || i >= len(cases) {
+			continue
+		}
+		oi := run(cases[i])
+		o.Nontrivial = o.Nontrivial || oi.Nontrivial
+		for _, v := range oi.Violations {
+			o.Violations = append(o.Violations, hx.Violation{Sig: v.Sig, Msg: fmt.Sprintf("enumeration case %d %+v: %s", i, oi.Desc, v.Msg)})
 		}
 	}
 	return o
@@ -572,24 +597,65 @@ func TestEnum(t *testing.T) {
 		fmt.Println("SELFTEST-FAILURE: fixtures:", err)
 		t.Fatal(err)
 	}
-	failed, ran := 0, 0
+	// Entry points that start goroutines (a panic there ends the process) are journalled case by
+	// case by hx. The others run in batches behind one journal entry that names the whole batch
+	// (form "enum"): a process death is still attributed and replayable, at 1/256 of the file traffic.
+	var plain, journalled []int
 	for i, c := range cases {
 		if !mine(i) {
 			continue
 		}
-		ran++
-		if !hx.Case(t, spec, c) {
-			failed++
-			if failed >= 20 {
-				return
-			}
+		if needsJournal(c.Target) {
+			journalled = append(journalled, i)
+		} else {
+			plain = append(plain, i)
 		}
 	}
-	hx.AddNote("enumerated_cases", ran)
+	failed := 0
+	jpath := filepath.Join(hx.RunDir(), "current-case.json")
+	for start := 0; start < len(plain) && failed < 20; start += enumBatch {
+		batch := plain[start:min(start+enumBatch, len(plain))]
+		jb, _ := json.Marshal(map[string]any{"property": "C19", "case": Case{Target: "enum", Form: "enum", Enum: batch},
+			"verdict": "process died while running one of these enumeration cases"})
+		os.WriteFile(jpath, jb, 0o644)
+		for _, i := range batch {
+			if !hx.Case(t, specBatch, cases[i]) {
+				failed++
+			}
+		}
+		os.Remove(jpath)
+	}
+	for _, i := range journalled {
+		if failed >= 20 {
+			break
+		}
+		if !hx.Case(t, spec, cases[i]) {
+			failed++
+		}
+	}
+	hx.AddNote("enumerated_cases", len(plain)+len(journalled))
 	if failed == 0 {
 		hx.Exhaustive("every element/message type x every hostile size x {natural, empty, longer} body for every entry point; every truncation of the single-file archives and every truncation in/around a payload of the catar fixtures x every source kind x every payload consumption; every truncation and every single-field mutation (size x hostile sizes, type x known identifiers, body fields x hostile values) of index.caibx, *.catar and the recorded protocol session, for every applicable entry point")
 	}
 }
+
+const enumBatch = 256
+
+// needsJournal: entry points whose code starts goroutines (Protocol.Initialize, IndexFromFile).
+func needsJournal(target string) bool {
+	switch target {
+	case "protohello", "protochunk", "protoserve", "indexfile":
+		return true
+	}
+	return false
+}
+
+// specBatch is spec without the per-case journal (see TestEnum).
+var specBatch = func() *hx.Spec[Case] {
+	s := *spec
+	s.Journal = false
+	return &s
+}()
 
 // cutsFor: every truncation length of a fixture; for the big single-file archive a sample that
 // keeps everything near the element boundaries and the usual buffer sizes.
